@@ -6,6 +6,7 @@ import (
 	"reflect"
 	"sort"
 	"strings"
+	"sync"
 	"time"
 
 	coercion "github.com/element-of-surprise/coercion"
@@ -15,6 +16,7 @@ import (
 	"github.com/element-of-surprise/coercion/workflow/storage/sqlite"
 	"github.com/element-of-surprise/coercion/workflow/utils/clone"
 	bctx "github.com/gostdlib/base/context"
+	"github.com/gostdlib/base/retry/exponential"
 )
 
 // C18: clones are deep, definition-preserving and resubmittable.
@@ -44,7 +46,14 @@ type CResp struct {
 
 type clonePlug struct {
 	simplePlug
-	fail bool
+	fail  bool
+	mu    sync.Mutex
+	calls map[string]int // invocations per action (request name)
+}
+
+// The retry back-off runs in real time here (no bubble): keep it at a millisecond.
+func (p *clonePlug) RetryPolicy() exponential.Policy {
+	return exponential.Policy{InitialInterval: time.Millisecond, Multiplier: 2, MaxInterval: 2 * time.Millisecond}
 }
 
 func (p *clonePlug) ValidateReq(req any) error {
@@ -57,8 +66,27 @@ func (p *clonePlug) ValidateReq(req any) error {
 func (p *clonePlug) Request() any  { return CReq{} }
 func (p *clonePlug) Response() any { return CResp{} }
 func (p *clonePlug) Execute(ctx context.Context, req any) (any, *plugins.Error) {
+	name := ""
+	switch r := req.(type) {
+	case CReq:
+		name = r.Name
+	case *CReq:
+		name = r.Name
+	}
+	p.mu.Lock()
+	if p.calls == nil {
+		p.calls = map[string]int{}
+	}
+	n := p.calls[name]
+	p.calls[name]++
+	p.mu.Unlock()
 	if p.fail {
-		return nil, &plugins.Error{Message: "failed", Permanent: true, Wrapped: &plugins.Error{Message: "inner"}}
+		// retried once (Retries is 1): two different failed attempts
+		return nil, &plugins.Error{Message: fmt.Sprintf("failed, try %d", n), Wrapped: &plugins.Error{Message: "inner"}}
+	}
+	if n == 0 && strings.HasSuffix(name, "/a0") && !p.check {
+		// the first action of every sequence needs a second attempt: executed plans carry multi-attempt actions
+		return nil, &plugins.Error{Message: "transient first try", Wrapped: &plugins.Error{Message: "inner"}}
 	}
 	return CResp{Out: []string{"a", "b"}, Inner: &CInner{Note: "n", Nums: []int{1}, Token: "resp-secret"}, Token: "resp-secret"}, nil
 }
@@ -184,7 +212,10 @@ func executedPlan(s cloneShape, state string) (*workflow.Plan, error) {
 		sq.State.Status, sq.State.Start = workflow.Running, t
 		a := sq.Actions[0]
 		a.State.Status, a.State.Start = workflow.Running, t
-		a.Attempts = []*workflow.Attempt{{Err: &plugins.Error{Message: "transient", Wrapped: &plugins.Error{Message: "inner"}}, Start: t, End: t.Add(time.Second)}}
+		a.Attempts = []*workflow.Attempt{
+			{Err: &plugins.Error{Message: "transient", Wrapped: &plugins.Error{Message: "inner"}}, Start: t, End: t.Add(time.Second)},
+			{Resp: CResp{Out: []string{"partial"}, Token: "resp-secret"}, Err: &plugins.Error{Message: "second try"}, Start: t.Add(2 * time.Second), End: t.Add(3 * time.Second)},
+		}
 		return got, nil
 	}
 	return nil, fmt.Errorf("unknown state %s", state)
